@@ -375,6 +375,31 @@ def rule_holes(ctx):
         ctx.note("%s constructed in: %s" % (name, sorted(sites)))
 
 
+def rule_judgments(ctx):
+    """every sub-term / sub-pattern of every former is handed to a checking judgment (R-TRAV on the checker itself)"""
+    from .. import trav
+    rule = "judgment-coverage"
+    facts = ctx.facts
+    ctx.rule(rule, "in the term and pattern judgments (Tyck for TyEnvT<TermId> / TyEnvT<PatId>) every TermId / PatId child bound by the arm of "
+                   "a former is handed to a checking judgment (tyck_k, check_k, elaborate_*_k): no sub-term of an accepted program is left "
+                   "unchecked")
+    ID = r"bitter::syntax::(TermId|PatId)\b"
+    fam = r"::tyck_k$|::tyck_inner_k$|::check_k$|::elaborate_k$|::elaborate_\w+_k$"
+    n = 0
+    for suffix, tyname, label in (("bitter::syntax::TermId> as zydeco_statics::check::Tyck<'a>>::tyck_inner_k", "Term<", "tyck.term"),
+                                  ("bitter::syntax::PatId> as zydeco_statics::check::Tyck<'a>>::tyck_inner_k", "Pattern", "tyck.pattern")):
+        fn = next((p for p in facts.bodies() if p.endswith(suffix)), None)
+        if fn is None:
+            ctx.anchor_lost(rule, "%s not found" % suffix)
+            continue
+
+        def dispatch(h, env, tyname=tyname):
+            ms = [m for m in H.walk(h["body"]) if H.kind(m) == "Match" and not m.get("src") and ("bitter::syntax::" + tyname) in (m.get("scrut_ty") or "")]
+            return max(ms, key=lambda m: len(m["arms"])) if ms else None
+        n += trav.check_traversal(ctx, rule, fn, fam, ID, label=label, dispatch=dispatch, allow_default=True)
+    ctx.floor(rule, "children of formers handed to a judgment", n, 60)
+
+
 def run(ctx):
     rule_gates(ctx)
     rule_err(ctx)
@@ -382,6 +407,7 @@ def run(ctx):
     matcher.check_matcher(ctx, "classifier-matcher")
     rule_link(ctx)
     rule_holes(ctx)
+    rule_judgments(ctx)
     ctx.assume("the typing rules themselves (progress/preservation), the coverage algorithm (C04) and termination of "
                "normalisation are NOT decided")
     ctx.assume("ResultKont errors are already recorded in Tycker::errors (append-only, checked), so dropping a ResultKont cannot "
